@@ -63,7 +63,8 @@ func workerDrive(args []string) int {
 	for _, l := range loaded {
 		ref := l.Ref
 		if l.Err != nil || len(l.Pkgs) == 0 {
-			w.Emit(drive.Record{Prog: ref.ID, Kind: "stage", Stage: "load", Outcome: &drive.Outcome{OK: false, Panic: fmt.Sprint(l.Err)}})
+			// a synthesised program that does not load is a defect of the harness, never a verdict on gomacro
+			w.Emit(drive.Record{Prog: ref.ID, Kind: "harness-error", Stage: "load", Outcome: &drive.Outcome{OK: false, Panic: "synthesised program does not load (type error in the generated source?): " + fmt.Sprint(l.Err)}})
 			w.Emit(drive.Record{Prog: ref.ID, Kind: "done"})
 			continue
 		}
